@@ -4,3 +4,4 @@ import AJ.Props.C03Doc
 import AJ.Props.C03MpDoc
 import AJ.Props.C03FDoc
 import AJ.Props.C03FMpDoc
+import AJ.Props.SlotCor2
